@@ -139,3 +139,40 @@ func inNaturalLoop(b, h *ssa.BasicBlock) bool {
 	}
 	return false
 }
+
+// exitLoopHeader returns the innermost loop from whose body the block of in
+// is entered directly (a return or break target reached from inside the loop
+// without going through the loop header again), or the enclosing loop when in
+// lies in a loop body itself.
+func exitLoopHeader(in ssa.Instruction) *ssa.BasicBlock {
+	if h := loopHeader(in); h != nil {
+		return h
+	}
+	r := in.Block()
+	var best *ssa.BasicBlock
+	for _, h := range r.Parent().Blocks {
+		if !h.Dominates(r) {
+			continue
+		}
+		isHeader := false
+		for _, p := range h.Preds {
+			if p == h || h.Dominates(p) {
+				isHeader = true
+			}
+		}
+		if !isHeader {
+			continue
+		}
+		fromBody := false
+		for _, b := range r.Parent().Blocks {
+			if b != h && inNaturalLoop(b, h) && reachesAvoiding(b, r, h) {
+				fromBody = true
+				break
+			}
+		}
+		if fromBody && (best == nil || best.Dominates(h)) {
+			best = h
+		}
+	}
+	return best
+}
